@@ -27,7 +27,7 @@ CMPOPS = {'lt': operator.lt, 'le': operator.le, 'eq': operator.eq, 'ne': operato
           'gt': operator.gt}
 UNOPS = {'neg': operator.neg, 'pos': operator.pos, 'abs': abs, 'invert': operator.invert,
          'int': int, 'float': float, 'complex': complex}
-INTS = [0, 1, -1, 2, 3, 7, -5, 2 ** 64, -(2 ** 64), True]
+INTS = [0, 1, -1, 2, 3, 7, -5, 2 ** 64, -(2 ** 64), True, 2 ** 53 + 1, 10 ** 30, 10 ** 400]
 FLOATS = [0.0, -0.0, 0.5, -1.5, 3.0, 1e308, 5e-324, float('inf'), float('-inf'), float('nan')]
 CAT = INTS + FLOATS
 UNITS = ['m', '', None, u'\xb0C']
